@@ -109,7 +109,7 @@ pub fn check_history(h: &Hist) -> Result<(bool, Vec<&'static str>, u64), Failure
                                 Op::Committed { .. } => {
                                     committed = stored_poll(&committed_at(log, i + 1 + k + 1, &h.script)) == *nw;
                                 }
-                                Op::Storage { .. } | Op::Took(_) | Op::Quiescent => {}
+                                Op::Storage { .. } | Op::Took(_) | Op::Quiescent | Op::EmbedderHoldsStorage => {}
                                 Op::MachineDropped | Op::Crash { .. } => {
                                     announced = true;
                                     committed = true;
@@ -161,8 +161,15 @@ pub fn case(t: &mut Tape, ctx: &CaseCtx) -> CaseResult {
         script.reboot_needed = vec![true; 3];
         script.reboot_allowed = vec![(false, false), (false, false), (false, false), (true, true)];
     }
+    if t.chance(1, 3) {
+        // an embedder that uses the shared storage in reaction to events: it holds the mutex during the poll after
+        script.busy_storage_mask = t.raw() | t.raw();
+    }
     let h = run_history(script, &lives);
-    let (nontrivial, classes, amb) = check_history(&h)?;
+    let (nontrivial, mut classes, amb) = check_history(&h)?;
+    if h.log.iter().any(|o| matches!(o, Op::EmbedderHoldsStorage)) {
+        classes.push("embedder_holds_storage_during_a_poll");
+    }
     let _ = amb;
     Ok(CaseReport {
         key: hash_of(&format!("{:?}{:?}", h.script, lives)),
@@ -190,6 +197,7 @@ pub fn run(mut run: Run) -> i32 {
             "header values that cannot be an HTTP header value (control characters) are not sent",
             "a leading '+' and disagreeing duplicate headers are left open by the statement: any consistent reading is accepted",
             "storage works in these histories (storage faults are C14's domain), so every commit succeeds",
+            "an embedder may hold the shared storage mutex across a poll (in a third of the histories it does, after events chosen by a mask); the machine then waits for it",
         ],
     )
 }
